@@ -190,6 +190,19 @@ func startMain(p StartParams) {
 		if r.Kind == "openstream" && r.Args[2] > highs[r.Vb] {
 			vrt.Failf("vb%d was requested from %d, a position beyond its high seqno %d that the server has not reached", r.Vb, r.Args[2], highs[r.Vb])
 		}
+		if r.Kind == "openstream" && r.Args[2] > 0 {
+			// (C06) a request that names a position names the history branch it lies on: a vbUUID from the
+			// vBucket's fail-over log, never a made-up one
+			known := false
+			for _, fe := range c.Vb[r.Vb].Failover {
+				if uint64(fe.VbUUID) == r.Args[1] {
+					known = true
+				}
+			}
+			if !known {
+				vrt.Failf("vb%d was requested from position %d (snapshot [%d,%d]) under vbUUID %d, which is not a branch of this vBucket (fail-over log %v): the offset is a mixture", r.Vb, r.Args[2], r.Args[4], r.Args[5], r.Args[1], c.Vb[r.Vb].Failover)
+			}
+		}
 	}
 	vrt.SetOutcome(fmt.Sprintf("%v", rels))
 	e.Stream.Open()
